@@ -418,7 +418,7 @@ class Graph:
         with timer("Built dependency graph in %.3fms", logger=logger):
             for target in targets:
                 for path in target.flattened_outputs():
-                    if path in provides:
+                    if path in provides and provides[path] is not target:
                         msg = 'File "{}" provided by targets "{}" and "{}".'.format(
                             path, provides[path].name, target
                         )
